@@ -445,6 +445,51 @@ def implied_by(cond: ast.AST, true_leaves: list[ast.AST]) -> bool:
     return True
 
 
+def _flags_as_formulas(prog, fi: FuncInfo, flow, head: Node, expr: ast.AST, at: Node, depth: int = 0) -> ast.AST:
+    """A name that several assignments inside the loop body can have set (the result of a spliced predicate helper:
+    `if v is None: ok = False ... else: ok = not (...)`) is replaced by the formula it stands for: the disjunction, over
+    its definitions, of (the conditions under which that definition is the one that ran) and (the value it assigns)."""
+    from ..cfg import must_edges as _must
+    from ..inline import clone as _clone
+
+    if depth > 2:
+        return expr
+    body = flow.loop_body_nodes(head)
+
+    class _Sub(ast.NodeTransformer):
+        def visit_Name(self, node: ast.Name):
+            if not isinstance(node.ctx, ast.Load):
+                return node
+            ds = flow.reaching(at, node.id)
+            if len(ds) < 2 or any(d.kind != "assign" or d.value is None or d.node not in body for d in ds):
+                return node
+            alts: list[ast.expr] = []
+            for d in ds:
+                conj: list[ast.expr] = []
+                for b, lab in sorted(_must(flow.cfg, head, d.node) or set(), key=lambda x: x[0].id):
+                    if b.kind != "test" or not isinstance(b.ast, ast.expr) or isinstance(b.owner, ast.While) and isinstance(b.ast, ast.Constant):
+                        continue
+                    c_ = _flags_as_formulas(prog, fi, flow, head, expand_expr(prog, fi, b.ast, b, strict=False), b, depth + 1)
+                    conj.append(c_ if lab == "T" else ast.UnaryOp(op=ast.Not(), operand=c_))
+                val = _flags_as_formulas(prog, fi, flow, head, expand_expr(prog, fi, d.value, d.node, strict=False), d.node, depth + 1)
+                if isinstance(val, ast.Constant) and val.value is True:
+                    term = conj
+                elif isinstance(val, ast.Constant) and val.value is False:
+                    continue
+                else:
+                    term = conj + [val]
+                if not term:
+                    return ast.copy_location(ast.Constant(value=True), node)
+                alts.append(term[0] if len(term) == 1 else ast.BoolOp(op=ast.And(), values=term))
+            if not alts:
+                return ast.copy_location(ast.Constant(value=False), node)
+            return ast.copy_location(alts[0] if len(alts) == 1 else ast.BoolOp(op=ast.Or(), values=alts), node)
+
+    out = _Sub().visit(_clone(expr))
+    ast.fix_missing_locations(out)
+    return out
+
+
 def _check_merge_guards(ctx: Ctx, merge: FuncInfo, cfg_cls: ClassInfo) -> None:
     prog = ctx.prog
     flow = prog.flow(merge)
@@ -464,6 +509,17 @@ def _check_merge_guards(ctx: Ctx, merge: FuncInfo, cfg_cls: ClassInfo) -> None:
         ds_ = flow.reaching(head, it.id)
         if len(ds_) == 1 and ds_[0].kind == "assign" and isinstance(ds_[0].value, (ast.GeneratorExp, ast.ListComp)):
             it = ds_[0].value
+    for _step in range(3):
+        if isinstance(it, ast.Name) and it.id not in flow.defs_of_var:
+            # a module-level table of the field names: _CONFIG_FIELD_NAMES = tuple(f.name for f in fields(FlowmarkConfig))
+            r_ = ctx.repo.lookup(it.id, merge.module, merge)
+            if isinstance(r_, ConstInfo) and r_.value is not None:
+                it = r_.value
+                continue
+        if isinstance(it, ast.Call) and isinstance(it.func, ast.Name) and it.func.id in ("tuple", "list", "sorted") and len(it.args) == 1:
+            it = it.args[0]
+            continue
+        break
     if isinstance(it, (ast.GeneratorExp, ast.ListComp)) and len(it.generators) == 1 and not it.generators[0].ifs:
         it = it.generators[0].iter  # (f.name for f in fields(C)): still one element per field
     ok_iter = isinstance(it, ast.Call) and call_name(prog, merge, it) == "dataclasses.fields" and it.args and \
@@ -494,7 +550,7 @@ def _check_merge_guards(ctx: Ctx, merge: FuncInfo, cfg_cls: ClassInfo) -> None:
             if succ_ and sn not in flow.cfg.reachable_from(succ_[0], avoid={head}) and succ_[0] is not sn:
                 from ..inline import clone
 
-                cond = _Pos().visit(expand_expr(prog, merge, t.ast, t, strict=False))  # (a clone, temporaries read through)
+                cond = _Pos().visit(_flags_as_formulas(prog, merge, flow, head, expand_expr(prog, merge, t.ast, t, strict=False), t))  # (a clone, temporaries read through)
                 if want_lab == "F":
                     cond = ast.UnaryOp(op=ast.Not(), operand=cond)
                 ast.fix_missing_locations(cond)
@@ -811,7 +867,20 @@ def _check_kebab(ctx: Ctx, cfg_fields: list[str]) -> None:
         ctx.ob("R-CONFIG-K7", f"{parse.qual} :: unknown keys warn", ok,
                "a key that is not a FlowmarkConfig field must produce a warning (so 'accepted without warning' == fields(FlowmarkConfig))",
                where(parse, parse.node))
-        okv = isinstance(vf, ConstInfo) and vf.value is not None and "fields(FlowmarkConfig)" in ast.unparse(vf.value)
+        def _derived_text(ci_: ConstInfo, depth_: int = 0) -> str:
+            """the defining expression, with the module constants it mentions written out (one table built from another)"""
+            if ci_.value is None:
+                return ""
+            txt_ = ast.unparse(ci_.value)
+            if depth_ < 2:
+                for x_ in ast.walk(ci_.value):
+                    if isinstance(x_, ast.Name):
+                        r2_ = repo.lookup(x_.id, ci_.module, None)
+                        if isinstance(r2_, ConstInfo) and r2_ is not ci_:
+                            txt_ += " " + _derived_text(r2_, depth_ + 1)
+            return txt_
+
+        okv = isinstance(vf, ConstInfo) and vf.value is not None and "fields(FlowmarkConfig)" in _derived_text(vf)
         ctx.ob("R-CONFIG-K7", "flowmark.config :: accepted field names", bool(okv), "the set of accepted keys must be derived from fields(FlowmarkConfig)", where(mod, vf.assigns[0] if isinstance(vf, ConstInfo) else mod.tree))
 
 
